@@ -23,6 +23,12 @@ Theorem C01_code_maps_as_modelled :
   (key_eq_wf Gen.Private.dynKey_eq = true /\ key_hash_wf Gen.Private.dynKey_hash = true).
 Proof. exact (conj maps_as_modelled cache_keys_compare_type_and_id). Qed.
 
+Theorem C01_code_keys_carry_the_id_as_given :
+  key_ctor_wf Gen.Private.BorrowedKey_new_with false = true /\ key_ctor_wf Gen.Private.BorrowedKey_new true = true /\
+  key_ctor_wf Gen.Private.OwnedKey_new_with false = true /\ key_ctor_wf Gen.Private.OwnedKey_new true = true /\
+  key_borrow_wf Gen.Private.OwnedKey_borrow = true /\ key_to_owned_wf Gen.Private.BorrowedKey_to_owned = true.
+Proof. exact keys_carry_the_id_as_given. Qed.
+
 (* every hash function (hence every seed, ahash or SipHash), every positive shard count, every
    operation sequence: the sharded map answers exactly like one flat map *)
 Theorem C01_sharded_map_is_a_map : forall h n ops,
